@@ -34,6 +34,10 @@ def run(ctx):
     r6_cancel_bookkeeping(ctx)
     r7_signature_search(ctx)
     c07.r1_validator(ctx)   # recorded as R1 of this property: validated before any read
+    from . import shared
+    shared.effect_free(ctx, 'R8', [f'{N.PUBLIC}.dumps'],
+                       'an excerpt is a function of the document and the range: nothing remembered from an earlier excerpt (a context '
+                       'memoised in the document, an index list extended in place) may change a later one')
 
 
 def r1_plumbing(ctx):
@@ -201,6 +205,25 @@ def r6_cancel_bookkeeping(ctx):
                   f'{op}: marking the closed split depends on more than its existence: {sorted(bad)[:2]} - a split that stays unmarked '
                   f'is printed again by the header recovery of every later excerpt (a stray `*^ *` row)')
     ctx.expect_count('R6', 'spine-operator valuations', n_checked, 4)
+    # the mark lives on the token: every spine-operator node must own a token object made for its cell
+    add = ctx.prog.func(f'{N.DOCUMENT}.MultistageTree.add_node')
+    shared_tok = []
+    n_nodes = 0
+    for sp in sps:
+        for e in sp.events:
+            c = e.expr if isinstance(e.expr, ast.Call) else None
+            if c is None or not (isinstance(c.func, ast.Attribute) and c.func.attr == 'add_node'):
+                continue
+            n_nodes += 1
+            tok = F.bind_args(c, add, True).get('token')
+            made = isinstance(tok, ast.Call) and F.constructed_class(ctx, tok, sop) is not None \
+                and F.constructed_class(ctx, tok, sop).name == 'SpineOperationToken'
+            if not made:
+                shared_tok.append(src(tok)[:60] if tok is not None else None)
+    ctx.check(not shared_tok and n_nodes > 0, 'R6', sop.loc, sop.qualname, 'operator-token-per-node',
+              'every spine-operator node receives a SpineOperationToken constructed for that cell',
+              f'a spine-operator node receives `{shared_tok[0] if shared_tok else None}`, not a token made for it: the cancellation mark '
+              f'(cancelled_at_stage) is then shared by all the nodes that hold the same object')
     tok = ctx.prog.func(f'{N.TOKENS}.SpineOperationToken.is_cancelled_at')
     rets = symex.returns(tok)
     okc = sorted((G.show(c), src(v)) for c, v, _ in rets) == sorted([('self.cancelled_at_stage is None', 'False'),
